@@ -48,6 +48,23 @@ def run(ctx):
                     ok = ps == [3]
                     detail = f"reply address derives from parameters {ps} (3 = recorded sender)"
         ctx.ob("U1", tir.defp, "reply-to-recorded-sender", loc(tir.sp), ok, detail)
+        # U1b: where the wire carries the replying peer's address with every datagram (and one binding therefore serves all of an application's
+        # targets), the label handed back to the application is the one that arrived — never the binding's first recipient
+        if _uses_field(tos, 1, 1):
+            lab_ps, found = [], False
+            for blk in tir.rpo():
+                for s in tir.stmts(blk):
+                    if s["k"] == "assign" and s["p"][0] == 0 and not s["p"][1] and s["rv"]["k"] == "agg" and s["rv"]["ak"] == "tuple" and len(s["rv"]["ops"]) == 2:
+                        p = op_place(s["rv"]["ops"][0])
+                        if p:
+                            found = True
+                            lab_ps = sorted(set(lab_ps) | set(params_in(tir, p[0])))
+            ok_l = found and 2 not in lab_ps
+            ctx.ob("U1", tir.defp, "reply-labelled-with-the-address-it-came-with", loc(tir.sp), ok_l,
+                   f"the packet handed to the application derives from parameters {lab_ps} (1 = the received item)" if ok_l else
+                   f"the packet handed to the application derives from parameters {lab_ps}: parameter 2 is the binding's recipient (the target of the datagram that created the "
+                   "binding) — this protocol's binding is keyed by the local sender alone and serves every target of that application, so a reply from another target can be "
+                   "delivered labelled with the first target's address")
         # U2
         ps = params_in(nk, 0)
         carries_target = _uses_field(tos, 1, 1)
